@@ -87,7 +87,7 @@ def _synthetic(h):
     """a hand-written history that satisfies every clause: start-up, step of
     +large after 2 s + 1 ms, restart, 2 s and 6 s waits, one saturated slew"""
     def u(i, adv, off, w, now, cep, cep2, mode, acts):
-        return dict(ev="upd", h=h, i=i, c0=0, adv=adv, sat=False, bump=False, off=off, w=w, now_t=now, now_e=0,
+        return dict(ev="upd", h=h, i=i, c0=0, adv=adv, sat=False, bump=False, off=off, w=w, now_t=now, now_e=0, gc="none",
                     cep=cep, cep2=cep2, nlog=1, mode=mode, acts=acts, panic=False, emb="synthetic",
                     offc="+large" if off else "0", wc="3..50", advc="-", exp_ok=True)
     return [
@@ -98,7 +98,7 @@ def _synthetic(h):
         u(3, 0, 10, 4, 2001, 1, 1, 1, []),
         u(4, 2001, 0, 4, 4002, 1, 1, 2, []),
         u(5, 6001, 0, 4, 10003, 1, 1, 3, []),
-        u(6, 1000, 10, 4, 11003, 1, 1, 3, [_act("adjust", p=500000, p_small=True, slew_within_bound=True, d=1, d_whole=True, d_pos=True)]),
+        dict(u(6, 1000, 10, 4, 11003, 1, 1, 3, []), gc="lo", acts=[_act("adjust", p=500000, p_small=True, slew_within_bound=True, d=1, d_whole=True, d_pos=True)]),
     ]
 
 
@@ -219,7 +219,7 @@ def run(ctx):
         evaluations=len(upd), distinct_nontrivial=distinct,
         rule="update histories generated by TLC from Pll.tla: every history of Pll_gen's classes up to its length reaching a "
              "distinct abstract state (VIEW), plus -simulate walks over all classes (offset 0/+-0.5ms/+-1ms/+-(1ms+1ns)/+-large/"
-             "+-MaxInt64/MinInt64, weight 2/3/4/49/50/149/150, advance 0/0.5s/1s/2s/2s+1/6s/6s+1/300s+1/saturated, external "
+             "+-MaxInt64/MinInt64, weight 0(denormal)/-5/2/3/4/49/50/149/150/NaN/+Inf/-Inf, advance 0/0.5s/1s/2s/2s+1/6s/6s+1/300s+1/saturated, external "
              "epoch bump), each replayed under embeddings of offsets, weights, readings (ms and ns quantum), base time and "
              "epoch base; distinct_nontrivial = distinct generated histories containing at least one Step/Adjust; "
              "evaluations = recorded updates",
